@@ -46,6 +46,14 @@ func (q *MultiOpQueryer) Subscribe(req *requests.Request, closeCh <-chan struct{
 	errCh := make(chan error)
 	defer close(errCh)
 
+	// closed when the init sequence fails: Subscribe returns the error, the caller will never
+	// close closeCh nor read resCh, so the goroutines below must not wait for either
+	failedCh := make(chan struct{})
+	fail := func(err error) {
+		close(failedCh)
+		errCh <- err
+	}
+
 	// resCh is never closed by the receiver: every send gives up once closeCh is closed
 	send := func(res *requests.Response) bool {
 		select {
@@ -62,7 +70,10 @@ func (q *MultiOpQueryer) Subscribe(req *requests.Request, closeCh <-chan struct{
 			recover()
 		}()
 		verifhook.At("Cq.recvQ", resCh)
-		<-closeCh
+		select {
+		case <-closeCh:
+		case <-failedCh:
+		}
 		verifhook.At("Cq.upClose", resCh)
 		conn.Close()
 	}()
@@ -75,6 +86,12 @@ func (q *MultiOpQueryer) Subscribe(req *requests.Request, closeCh <-chan struct{
 			}()
 			verifhook.At("Rq.upClose", resCh)
 			conn.Close()
+			select {
+			case <-failedCh:
+				// nobody listens: Subscribe reported the failure itself
+				return
+			default:
+			}
 			// indicate that it's done
 			verifhook.At("Rq.sendNil", resCh)
 			send(nil)
@@ -84,13 +101,13 @@ func (q *MultiOpQueryer) Subscribe(req *requests.Request, closeCh <-chan struct{
 			Type: requests.SubConnectionInit,
 		})
 		if err != nil {
-			errCh <- err
+			fail(err)
 			return
 		}
 
 		// send init msg
 		if err := wsutil.WriteClientText(conn, bInitMsg); err != nil {
-			errCh <- err
+			fail(err)
 			return
 		}
 
@@ -100,12 +117,12 @@ func (q *MultiOpQueryer) Subscribe(req *requests.Request, closeCh <-chan struct{
 			Payload: req,
 		})
 		if err != nil {
-			errCh <- err
+			fail(err)
 			return
 		}
 		// send query msg
 		if err := wsutil.WriteClientText(conn, bRequestMsg); err != nil {
-			errCh <- err
+			fail(err)
 			return
 		}
 
